@@ -44,7 +44,67 @@ def run(plan):
     dev.raw_frame_handler = lambda conn, frame, key, d: [reply]
     delivered_changed = [False]
 
+    async def main_v3(w):
+        """The same V2 packets carried inside genuine V3 envelopes: the altered packet must still be rejected -
+        also when the 12 h key lifetime runs out while the reply is on its way."""
+        import refmodel.codec as codec
+        lan = w.ns.LAN(HOST, 6444, cfg["device_id"])
+        PE = w.ns.lan.ProtocolError
+        try:
+            await lan.authenticate(s.token, s.key)
+        except Exception as e:
+            res.fail(f"genuine handshake raised {type(e).__name__}", repr(e))
+            return
+        if plan.get("warm"):
+            try:
+                got0 = await lan.send(b"\xaa\x00", retries=1)
+            except Exception as e:
+                res.fail(f"clean exchange raised {type(e).__name__}", repr(e))
+                return
+            if got0 != [reply]:
+                res.fail("clean exchange returned wrong frames", repr(got0))
+                return
+        lat = 1 / 1024
+        if plan.get("straddle"):
+            # the request leaves shortly before the key lifetime ends, the reply arrives shortly after
+            t_hs = w.loop.time() - 1.0                      # authenticate() pauses one second after the handshake
+            await asyncio.sleep(max(0.0, t_hs + 12 * 3600 - plan.get("before", 0.25) - w.loop.time()))
+            lat = plan.get("lat", 0.5)
+            w.fire("key_lifetime_ends_while_reply_in_flight")
+        dev.script = [{"mutate_inner": plan["mutate"], "lat": lat}]
+        try:
+            got = await lan.send(b"\xaa\x01", retries=1)
+            kind = "returned"
+        except PE as e:
+            got, kind = e, "protocol_error"
+        except Exception as e:
+            got, kind = e, "other"
+        orig = codec.v2_encode(dev.device_id, reply, magic=dev.resp_magic)
+        delivered_changed[0] = getattr(dev, "last_inner", orig) != orig
+        if kind == "other":
+            res.fail(f"corrupted packet raised {type(got).__name__} instead of ProtocolError", repr(got))
+        elif kind == "returned":
+            if delivered_changed[0] and got != [reply]:
+                res.fail("altered packet accepted and decoded to a different frame",
+                         f"V3-carried: got {[g.hex()[:40] for g in got]}")
+            elif delivered_changed[0]:
+                res.fail("altered packet accepted", "V3-carried packet decoded to the original frame")
+            elif got != [reply]:
+                res.fail("unaltered packet decoded wrongly", repr(got))
+        if not res.ok:
+            return
+        dev.script = []
+        try:
+            got2 = await lan.send(b"\xaa\x02", retries=1)
+        except Exception as e:
+            res.fail(f"clean exchange after a rejected packet raised {type(e).__name__}", repr(e))
+            return
+        if got2 != [reply]:
+            res.fail("clean exchange after a rejected packet returned wrong frames", repr(got2))
+
     async def main(w):
+        if cfg.get("version") == 3:
+            return await main_v3(w)
         lan = w.ns.LAN(HOST, 6444, cfg["device_id"])
         if plan.get("warm"):
             # an authentic copy of the very same packet is accepted first (history: accept, then altered copy)
@@ -86,9 +146,16 @@ def run(plan):
                          f"{len(g1)} + {len(g2)} frames from {authentic} authentic packets and one altered packet")
             return
         dev.script = [{"mutate": plan["mutate"]}]
+        ntx = 1
+        if plan.get("after_drop"):
+            # two faults in one exchange: the first transmission goes unanswered, the reply to the retransmission
+            # is the altered one
+            dev.script = [{"drop": True}, {"mutate": plan["mutate"]}]
+            ntx = 2
+            w.fire("altered_reply_to_a_retransmission")
         PE = w.ns.lan.ProtocolError
         try:
-            got = await lan.send(b"\xaa\x01", retries=1)
+            got = await lan.send(b"\xaa\x01", retries=ntx)
             kind = "returned"
         except PE as e:
             got, kind = e, "protocol_error"
@@ -131,7 +198,7 @@ def run(plan):
         res.fail(f"liveness: {type(e).__name__}", str(e))
     res.take(w)
     res.add_fired(dev.fired)
-    res.key = (plan["reply"], repr(plan["mutate"]), bool(plan.get("warm")), bool(plan.get("as_extra")), bool(plan.get("pair")))
+    res.key = (plan["reply"], repr(plan["mutate"]), bool(plan.get("warm")), bool(plan.get("as_extra")), bool(plan.get("pair")), bool(plan.get("after_drop")), plan["config"].get("version"), bool(plan.get("straddle")))
     res.nontrivial = delivered_changed[0]
     return res
 
@@ -181,8 +248,24 @@ def space(tier):
         v = BOUNDARY[j % len(BOUNDARY)]
         k = j // (len(BOUNDARY) * len(pos_index))
         return {"config": base, "reply": frame_for(L).hex(), "mutate": {"kind": "byte", "pos": p, "val": v},
-                "as_extra": k % 2 == 1, "warm": k % 4 == 2, "pair": k % 4 == 3}
+                "as_extra": k % 2 == 1, "warm": k % 4 == 2, "pair": k % 4 == 3, "after_drop": k % 4 == 0 and v in (0x00, 0xFF)}
     sp.add("byte_subst_boundary_values", len(pos_index) * len(BOUNDARY) * 4, subst_boundary, exhaustive=True)
+
+    base3 = {"version": 3, "device_id": 0x0000112233445566}
+    v3_index = []
+    for L in (0, 16, 34):
+        v3_index.extend((L, b) for b in range(plen(L) * 8))
+
+    def flips_v3(j, rng):
+        L, b = v3_index[j % len(v3_index)]
+        k = j // len(v3_index)
+        p = {"config": base3, "reply": frame_for(L).hex(), "mutate": {"kind": "flip", "bit": b}, "warm": k % 2 == 1}
+        if k >= 2 or (tier == "quick" and j % 3 == 0):
+            p["straddle"] = True
+            p["before"] = rng.choice([0.01, 0.25, 0.4])
+            p["lat"] = rng.choice([0.5, 1.0, 1.9])
+        return p
+    sp.add("flip_all_carried_in_v3", len(v3_index) * (1 if tier == "quick" else 4), flips_v3, exhaustive=True)
 
     def multi(j, rng):
         L = rng.choice(LENS + [rng.randint(0, 255)])
@@ -203,6 +286,7 @@ def space(tier):
         else:
             m = {"kind": "multi", "edits": [[rng.randrange(n), rng.randrange(1, 256)]]}
         return {"config": dict(base, device_id=rng.getrandbits(64)), "reply": rand_bytes(rng, L).hex(), "mutate": m,
-                "warm": rng.random() < 0.5, "as_extra": rng.random() < 0.25, "pair": rng.random() < 0.5}
+                "warm": rng.random() < 0.5, "as_extra": rng.random() < 0.25, "pair": rng.random() < 0.5,
+                "after_drop": rng.random() < 0.25}
     sp.add("random_packets", 3000 if tier == "quick" else 400_000, rnd)
     return sp
